@@ -6,12 +6,12 @@ PROP = {
     "level": "exploration",
     "technique": "runtime monitor: substitution oracle — a template family of ---@generic functions called with typed locals; the inferred type of `local r = f(a)` is compared with the harness's own substitution of the real argument types",
     "design_ref": "§4 C18",
-    "rule": "one batch = one generated hierarchy + 40 cases (template in {id, array-of, elem, mk-table, value-of, key-of, optional, pair, dup, call, elem-of-tuple}, 1-2 generated argument types of depth <= 3 (4 for a third of thorough batches), no any/unknown); "
+    "rule": "one batch = one generated hierarchy + 40 cases in one analysed file (template in {id, array-of, elem, elem2, mk-table, value-of, key-of, optional, pair, dup, call, ret-fun, param-fun, elem-of-tuple}, 1-2 generated argument types of depth <= 3 (4 for a third of thorough batches), no any/unknown); "
             "one evaluation = one case whose argument expression really has the declared type; distinct = FNV of (template, printed argument annotations); non-trivial = argument ASTs have >= 2 nodes in total; "
             "admissible = exact instantiation, or equal after widening literals and expanding aliases on both sides",
-    "min_nontrivial": {"quick": 8000, "thorough": 150000},
+    "min_nontrivial": {"quick": 60000, "thorough": 1000000},
     "max_secs": {"quick": 60, "thorough": 900},
-    "require_clauses": ["template:id", "template:array-of", "template:elem", "template:mk-table", "template:value-of", "template:key-of", "template:optional", "template:pair", "template:dup", "template:call", "template:elem-of-tuple", "held:exact"],
+    "require_clauses": ["template:id", "template:array-of", "template:elem", "template:mk-table", "template:value-of", "template:key-of", "template:optional", "template:pair", "template:dup", "template:call", "template:elem-of-tuple", "template:ret-fun", "template:param-fun", "template:elem2", "held:exact", "held:modulo-widening-or-alias"],
     "assumptions": COMMON_ASSUME + [
         "arguments are typed locals without initialiser; cases where the analyzer reports another type for the argument expression are inconclusive",
         "literal widening and alias transparency are not fixed by the statement: both forms are accepted at every position",
